@@ -39,6 +39,7 @@ def build_ops():
     from beartype import beartype
     from typeguard import typechecked
     import dataclasses
+    from typing import Union as typing_Union
 
     class Fault:
         def __init__(self):
@@ -204,6 +205,18 @@ def build_ops():
             def gen(x: int) -> SH:
                 yield 1
 
+    def op_oldgen_union():
+        # the same, with an annotation over a Union of array types; a REBUILT annotation of the same spelling must be unaffected
+        import warnings
+        import jax
+        with warnings.catch_warnings():
+            warnings.simplefilter("ignore")
+
+            @jaxtyped
+            @typechecked
+            def gen(x: int) -> Float[typing_Union[np.ndarray, jax.Array], "a b"]:
+                yield 1
+
     def op_pickle():
         pickle.loads(pickle.dumps(SH))
         pickle.loads(pickle.dumps(PT))
@@ -230,7 +243,7 @@ def build_ops():
                 if pre:
                     isinstance(Z(pre), Float[np.ndarray, "a"])
                 h["pre"] = R.observe_memo()[0]
-                h["res"] = R.verdict(lambda: isinstance(obj, ann))
+                h["res"] = R.verdict(lambda: R.matches(obj, ann))
                 h["post"] = R.observe_memo()[0]
             with jaxtyped("context"):      # a fresh context, so that the resulting bindings can be observed
                 body()
@@ -245,6 +258,10 @@ def build_ops():
         arr("shared_rank", SH, [a, b], Z(2), {"inst": True, "dtin": True, "shape": [2]})
         arr("shared_notarray", SH, [a, b], "str", {"inst": False, "dtin": True, "shape": []})
         arr("shared_ok", SH, [a, b], Z(2, 3), {"inst": True, "dtin": True, "shape": [2, 3]})
+        import jax
+        UN = Float[typing_Union[np.ndarray, jax.Array], "a b"]       # built afresh for every probe battery
+        arr("rebuilt_union_rank", UN, [a, b], Z(2), {"inst": True, "dtin": True, "shape": [2]})
+        arr("rebuilt_union_notarray", UN, [a, b], "str", {"inst": False, "dtin": True, "shape": []})
         arr("ctx_mismatch", Float[np.ndarray, "a"], [a], Z(3), {"inst": True, "dtin": True, "shape": [3]}, pre=2)
         arr("ctx_match", Float[np.ndarray, "a"], [a], Z(2), {"inst": True, "dtin": True, "shape": [2]}, pre=2)
         # PyTree probes, in a fresh context
@@ -275,6 +292,7 @@ def worker(args):
             # history of the same worker process did to an object they would otherwise share
             ops, F, probes = build_ops()
             fired = []
+            kept = []          # the exception objects (and their tracebacks / frames) stay alive until the probes are done
             for (name, k, cls) in h:
                 F.arm(k, {"E": UserExc, "B": UserBase, "": None}[cls])
                 try:
@@ -282,10 +300,12 @@ def worker(args):
                     r = "ok"
                 except BaseException as e:  # noqa
                     r = type(e).__name__
+                    kept.append(e)
                 fired.append(r)
                 F.arm(0, None)
             nfired += sum(1 for r in fired if r in ("UserExc", "UserBase"))
             p = probes()
+            del kept
             f.write(json.dumps({"id": rid, "history": h, "outcomes": fired, "probes": p}, separators=(",", ":")) + "\n")
             rid += 1
     return rid - id0, nfired
